@@ -173,6 +173,12 @@ class C14(Prop):
       out.append(case)
     return out
 
+  def corpus(self):
+    # witness of the open TemporalVariance finding (numdifftools probes through a zero normalising sum): runs first on every seed
+    return [{"dev": {"cls": "ADevice", "n": 2, "lb": ["1", "3/2"], "hb": ["1", "3/2"], "cbs": [], "prm": {"fx": {"k": "tvar", "c": "1/4"}},
+                     "_py": {"bform": "table", "cform": None}}, "s": ["1", "3/2"], "p": "-23/8", "_shape": "flat", "fnx": True,
+             "ij": [[0, 0], [0, 1], [1, 1]]}]
+
   def fnx_case(self, rng, tier):
     """ADevice over the function classes the Lean `Fn` has no constructor for (vk/gen_fnx.py): ORACLE ONLY, no T2 op."""
     q = rng.random()
